@@ -4,6 +4,7 @@ import RsyncModel.Delta.Go
 import RsyncModel.Mux
 import RsyncModel.RecvData
 import RsyncModel.Generator
+import RsyncModel.Delta.AlgB
 /-! # Tie theorems: the regenerated translations of the Go source equal the hand models
 
 `Gen/Pure.lean` is rewritten from /repo on every run by `tools/extract/pure.go`. Each theorem here
@@ -493,5 +494,170 @@ theorem matchedSpan_contiguous (offset lastMatch sumLen : Int) (i : Int32) :
     ∃ n lm', Gen.Pure.matchedSpan offset i lastMatch sumLen = .ok (n, lm') ∧ lm' = lastMatch + n := by
   refine ⟨_, _, matchedSpan_tied offset lastMatch sumLen i, ?_⟩
   omega
+
+
+/-! ## the rolling update is the algorithm level's `rollGo` -/
+
+theorem ofInt_natCast (n : Nat) : UInt32.ofInt (n : Int) = UInt32.ofNat n := by
+  apply UInt32.toNat_inj.mp
+  unfold UInt32.ofInt
+  have e : ((n : Int) % 2 ^ 32).toNat = n % 2 ^ 32 := by omega
+  rw [e]; simp
+
+/-- **one pass of the source's rolling update is `rollGo`**, the step the refinement chain
+(`algB` ⊑ `algA` ⊑ greedy) is proved about: at a position whose remaining bytes are `x :: xs`, with the
+window length `k` and the flag `more` as `hashSearch` computes them, the translated statements return
+`rollGo`'s pair — in both cases (a byte follows the window / the window only shrinks) -/
+theorem rollUpdate_is_rollGo (c : Ctx) (s : UInt32 × UInt32) (x : UInt8) (xs : Bytes) :
+    (c.bl ≤ xs.length →
+      Gen.Pure.rollUpdate s.1 s.2 (c.bl : Int) (x :: xs) true = .ok ((rollGo c s x xs).1, (rollGo c s x xs).2, (c.bl : Int))) ∧
+    (¬ c.bl ≤ xs.length →
+      Gen.Pure.rollUpdate s.1 s.2 ((xs.length + 1 : Nat) : Int) (x :: xs) false
+        = .ok ((rollGo c s x xs).1, (rollGo c s x xs).2, (xs.length : Int))) := by
+  have hbl1 : 1 ≤ c.bl := by simp [Ctx.bl]
+  constructor
+  · intro h
+    unfold rollGo
+    rw [dif_pos h]
+    obtain ⟨w, tl, hw, hlen⟩ : ∃ w tl, xs = w ++ (xs[c.bl - 1]'(by omega)) :: tl ∧ w.length = c.bl - 1 := by
+      refine ⟨xs.take (c.bl - 1), xs.drop c.bl, ?_, by simp; omega⟩
+      have h1 : c.bl - 1 < xs.length := by omega
+      have := List.take_append_drop (c.bl - 1) xs
+      conv => lhs; rw [← this]
+      congr 1
+      rw [List.drop_eq_getElem_cons h1]
+      have e : c.bl - 1 + 1 = c.bl := by omega
+      rw [e]
+    have hk : (c.bl : Int) = ((w.length + 1 : Nat) : Int) := by omega
+    rw [hk]
+    conv => lhs; rw [hw]
+    rw [rollUpdate_more, ofInt_natCast]
+    have : w.length + 1 = c.bl := by omega
+    rw [this]
+  · intro h
+    unfold rollGo
+    rw [dif_neg h, rollUpdate_last, ofInt_natCast]
+    have e : ((xs.length + 1 : Nat) : Int) - 1 = (xs.length : Int) := by omega
+    rw [e]
+
+
+/-! ## `simpleSendToken` (token.go): a literal run goes out in chunks of at most `chunkSize`, then the token -/
+
+/-- what the model's chunks look like on the wire: length word, then the bytes -/
+def emitChunks (cs : List Bytes) : List Go.Out := cs.flatMap fun c => [Go.Out.i32 (Int32.ofInt c.length), Go.Out.bytes c]
+
+theorem cutChunks_step (n : Nat) (hn : 0 < n) (bs : Bytes) (hne : bs ≠ []) :
+    Delta.cutChunks n bs = bs.take (min n bs.length) :: Delta.cutChunks n (bs.drop (min n bs.length)) := by
+  rw [Delta.cutChunks]
+  by_cases h : bs.length ≤ n
+  · have h1 : (n = 0 ∨ bs.length ≤ n) := Or.inr h
+    rw [dif_pos h1]
+    have hm : min n bs.length = bs.length := by omega
+    have he : bs.isEmpty = false := by cases bs with | nil => exact absurd rfl hne | cons _ _ => rfl
+    rw [hm, List.take_length, List.drop_length, he]
+    rw [Delta.cutChunks]
+    simp
+  · have h1 : ¬ (n = 0 ∨ bs.length ≤ n) := by omega
+    rw [dif_neg h1]
+    have hm : min n bs.length = n := by omega
+    rw [hm]
+
+theorem sendToken_loop (file : Bytes) (n offset : Int) (token : Int32) (h0 : 0 ≤ offset) (hn : 0 ≤ n)
+    (hin : offset + n ≤ (file.length : Int)) :
+    ∀ (fuel l : Nat) (out : List Go.Out), (l : Int) ≤ n → n - (l : Int) ≤ (fuel : Int) →
+      Go.loop fuel (Gen.Pure.sendToken_cond0 file n offset token) (Gen.Pure.sendToken_body0 file n offset token) (out, (l : Int))
+        = .ok (out ++ emitChunks (Delta.cutChunks 262144 (((file.drop offset.toNat).take n.toNat).drop l)), n) := by
+  intro fuel
+  induction fuel with
+  | zero =>
+    intro l out hl hf
+    have : (l : Int) = n := by omega
+    have hc : Gen.Pure.sendToken_cond0 file n offset token (out, (l : Int)) = false := by
+      simp [Gen.Pure.sendToken_cond0]; omega
+    rw [Go.loop]; simp only [hc, Bool.false_eq_true, if_false]
+    have hd : ((file.drop offset.toNat).take n.toNat).drop l = [] := by
+      apply List.drop_eq_nil_of_le; simp only [List.length_take, List.length_drop]; omega
+    rw [hd, Delta.cutChunks]; simp [emitChunks, this]
+  | succ f ih =>
+    intro l out hl hf
+    by_cases hlt : (l : Int) < n
+    · have hc : Gen.Pure.sendToken_cond0 file n offset token (out, (l : Int)) = true := by
+        simp [Gen.Pure.sendToken_cond0]; exact hlt
+      rw [Go.loop, if_pos hc]
+      -- one iteration
+      generalize hseg : ((file.drop offset.toNat).take n.toNat).drop l = rest
+      have hrl : rest.length = (n - (l : Int)).toNat := by
+        rw [← hseg]; simp only [List.length_drop, List.length_take]; omega
+      have hne : rest ≠ [] := by intro h; rw [h] at hrl; simp at hrl; omega
+      have hm : (min (262144 : Int) (n - (l : Int))).toNat = min 262144 rest.length := by rw [hrl]; omega
+      have hchunk : Go.fileSlice file (offset + (l : Int)) (min (262144 : Int) (n - (l : Int))) = rest.take (min 262144 rest.length) := by
+        unfold Go.fileSlice
+        rw [hm, ← hseg, List.drop_take, List.take_take, List.drop_drop]
+        have e1 : (offset + (l : Int)).toNat = offset.toNat + l := by omega
+        rw [e1]
+        congr 1
+        simp only [List.length_drop, List.length_take]
+        omega
+      have hb : Gen.Pure.sendToken_body0 file n offset token (out, (l : Int))
+          = .ok (out ++ [Go.Out.i32 (Int32.ofInt (min (262144 : Int) (n - (l : Int))))] ++ [Go.Out.bytes (rest.take (min 262144 rest.length))],
+                 ((l + min 262144 rest.length : Nat) : Int)) := by
+        simp only [Gen.Pure.sendToken_body0, hchunk]
+        congr 2
+        rw [← hm]; omega
+      rw [hb, Go.bind_ok]
+      rw [ih (l + min 262144 rest.length) _ (by rw [hrl]; omega) (by rw [hrl]; omega)]
+      rw [cutChunks_step 262144 (by decide) rest hne]
+      have hd : ((file.drop offset.toNat).take n.toNat).drop (l + min 262144 rest.length) = rest.drop (min 262144 rest.length) := by
+        rw [← hseg, List.drop_drop]
+      rw [hd]
+      simp only [emitChunks, List.flatMap_cons, List.append_assoc]
+      congr 3
+      simp only [List.cons_append, List.nil_append]
+      congr 2
+      simp only [List.length_take]
+      congr 1
+      rw [hrl]; omega
+    · have : (l : Int) = n := by omega
+      have hc : Gen.Pure.sendToken_cond0 file n offset token (out, (l : Int)) = false := by
+        simp [Gen.Pure.sendToken_cond0]; omega
+      rw [Go.loop]; simp only [hc, Bool.false_eq_true, if_false]
+      have hd : ((file.drop offset.toNat).take n.toNat).drop l = [] := by
+        apply List.drop_eq_nil_of_le; simp only [List.length_take, List.length_drop]; omega
+      rw [hd, Delta.cutChunks]; simp [emitChunks, this]
+
+/-- **`simpleSendToken` as the source has it**: the `n` unmatched bytes at `offset` leave as the
+model's chunks (`cutChunks chunkSize`: every chunk non-empty and at most `chunkSize` long, their
+concatenation the run itself), each as a length word followed by its bytes, and then the token word
+`-(token+1)` unless the token is the flush pseudo-token -2; the loop ends within `n` iterations -/
+theorem sendToken_tied (token : Int32) (offset n : Int) (file : Bytes) (out : List Go.Out) (h0 : 0 ≤ offset) (hn : 0 ≤ n)
+    (hin : offset + n ≤ (file.length : Int)) :
+    Gen.Pure.sendToken token offset n file out =
+      .ok (out ++ emitChunks (Delta.cutChunks Delta.chunkSize ((file.drop offset.toNat).take n.toNat)) ++
+            (if token = -2 then [] else [Go.Out.i32 (-(token + 1))])) := by
+  have hcs : Delta.chunkSize = 262144 := by decide
+  rw [hcs]
+  unfold Gen.Pure.sendToken
+  by_cases hpos : 0 < n
+  · have hd : decide (n > (0 : Int)) = true := by simpa using hpos
+    simp only [hd, if_true]
+    have hl := sendToken_loop file n offset token h0 hn hin n.toNat 0 out (by omega) (by omega)
+    simp only [Int.natCast_zero, List.drop_zero] at hl
+    rw [hl]
+    simp only [Go.bind_ok]
+    by_cases ht : token = -2
+    · simp [ht]
+    · have : (token != (-2 : Int32)) = true := by simpa using ht
+      simp [ht, this]
+  · have hd : decide (n > (0 : Int)) = false := by simpa using hpos
+    have hn0 : n = 0 := by omega
+    simp only [hd, Bool.false_eq_true, if_false, Go.bind_ok]
+    subst hn0
+    have : Delta.cutChunks 262144 ((file.drop offset.toNat).take (0 : Int).toNat) = [] := by
+      rw [Delta.cutChunks]; simp
+    rw [this]
+    by_cases ht : token = -2
+    · simp [ht, emitChunks]
+    · have : (token != (-2 : Int32)) = true := by simpa using ht
+      simp [ht, this, emitChunks]
 
 end PureTie
